@@ -11,6 +11,7 @@ S=/tmp/rws-matrix-verif$MATRIX_SUFFIX; rm -rf $S; mkdir -p $S; rsync -a --exclud
 mkdir -p $B
 for d in seeded/${1:-*}/; do
   id=$(basename $d); p=${id%%-*}
+  if [ -n "$SKIP_FILE" ] && grep -q "^$id " "$SKIP_FILE"; then continue; fi
   if ! grep -q "\"property_id\": \"$p\"" MANIFEST.json; then echo "$id $p not-claimed"; continue; fi
   if ! git -C $W apply --3way /verif/seeded/$id/patch.diff >/dev/null 2>&1; then echo "$id $p patch-does-not-apply"; git -C $W reset -q; git -C $W checkout -- .; continue; fi
   git -C $W reset -q
